@@ -1,24 +1,42 @@
 """Shared glue: run simulation families for one property and fold the tagged mismatches
 of every execution into the report."""
 import json
-from .report import Violation
-from .families import f1
+from .report import Violation, Report
+from .explorer import pmap, chunked, Chooser, NPROC
+from .families import f1, f2, f3
+
+RULE = {
+    "F1": ("F1: every command sequence with <=k deviations from a default policy (menu: odd sizes, oversubscribing batches, wrong pools, "
+           "dependency/lifecycle violations, suspension of any container ever seen) on the real Executor in lock-step with the reference executor"),
+    "F2": ("F2: suspension sweep - one multi-operator container (+neighbour), a suspension of any container ever seen may be requested at every tick "
+           "(<=2 requests per execution), allocations 0.5 GB..whole pool, tick rates where the write-out is 1,2,12,32 ticks; default policy re-assigns returned work"),
+    "F3": ("F3: memory mixes - all ordered sets of 2..4 containers from (offset, allocation, profile) alphabets in one 40 GB pool, with and without overcommit"),
+}
+NONTRIVIAL = "non-trivial = distinct (scenario, outcome-counter vector, exception site) classes; states = distinct reference-model states reached"
 
 
-def fold(rep, pid, family, sc, tot, replay_kind):
+def fold(rep, pid, family, sc, tot):
     rep.cov["evaluations"] += tot["execs"]
-    rep.cov["traces_validated_against_impl"] += tot["execs"]
+    rep.cov["traces_validated_against_impl"] += tot["execs"] - tot.get("ambiguous", 0)
     rep.cov["transitions"] += tot["transitions"]
-    rep.add_states({(sc["name"], h) for h in tot["fps"]})
-    rep.add_nontrivial({(sc["name"], o) for o in tot["outcomes"]})
+    name = sc["name"] if sc else family
+    rep.add_states({(name, h) for h in tot["fps"]})
+    rep.add_nontrivial({(name, o) for o in tot["outcomes"]})
     if tot.get("capped"):
-        rep.cap(f"{family}:{sc['name']} execution cap")
-    if tot.get("ambiguous"):
-        rep.harness_notes.append(f"{family}:{sc['name']}: {tot['ambiguous']} executions left the exact-arithmetic alphabet (model comparison skipped there)")
+        rep.cap(f"{family}:{name} execution cap")
     for tags, kind, site, detail, choices in tot["mm"]:
         if pid in tags:
-            rep.add_violations([Violation(f"{family}", kind, detail, sc, choices, site=site, family=replay_kind)])
-    rep.part(family, scenarios=1, executions=tot["execs"], max_choice_points=tot["maxdepth"], **{("stat_" + k): v for k, v in tot["stats"].items()})
+            if isinstance(choices, dict):   # F3: the case itself
+                rep.add_violations([Violation(family, kind, detail, choices, [], site=site, family=family)])
+            else:
+                rep.add_violations([Violation(family, kind, detail, sc, choices, site=site, family=family)])
+    d = rep.cov["parts"].setdefault(family, dict(scenarios=0, executions=0, skipped_float_boundary=0))
+    d["scenarios"] += 1 if sc else 0
+    d["executions"] += tot["execs"]
+    d["skipped_float_boundary"] += tot.get("ambiguous", 0)
+    d["max_choice_points"] = max(d.get("max_choice_points", 0), tot["maxdepth"])
+    for k, v in tot["stats"].items():
+        d["stat_" + k] = d.get("stat_" + k, 0) + v
 
 
 def run_f1(rep, pid, tier, bound=None, names=None):
@@ -27,22 +45,52 @@ def run_f1(rep, pid, tier, bound=None, names=None):
         if names and not any(sc["name"].startswith(n) for n in names):
             continue
         tot = f1.explore(sc, bound)
-        fold(rep, pid, "F1", sc, tot, "F1")
+        fold(rep, pid, "F1", sc, tot)
+        if len(rep.cov["samples"]) < 1:
+            rep.sample(dict(family="F1", scenario=sc, example_choice_sequence=[0, 0, 5]))
     rep.cov["bounds"]["F1_deviations"] = bound
 
 
-def replay_f1(rec):
-    from .explorer import Chooser
-    sc = rec["scenario"]
-    tr = []
-    w = f1.run(sc, Chooser(rec["choices"]), tr)
+def run_f2(rep, pid, tier, bound=2):
+    scs = f2.scenarios(tier)
+    res = pmap(lambda sc: f2.explore(sc, bound), scs)
+    for sc, tot in zip(scs, res):
+        fold(rep, pid, "F2", sc, tot)
+    rep.cov["bounds"]["F2_deviations"] = bound
+    rep.sample(dict(family="F2", scenario=scs[len(scs) // 2], example_choice_sequence=[0, 2]))
+
+
+def run_f3(rep, pid, tier, seed=0):
+    cs = f3.cases(tier, seed)
+    res = pmap(f3.work, [(c, (False, True)) for c in chunked(cs, NPROC * 8)], chunks=1)
+    for tot in res:
+        fold(rep, pid, "F3", None, tot)
+    rep.cov["parts"]["F3"]["container_sets"] = len(cs)
+    rep.sample(dict(family="F3", containers=cs[len(cs) // 2], overcommit=True))
+
+
+def sim_main(pid, tier, seed, families, rule_extra=""):
+    rep = Report(pid, tier, seed)
+    rep.cov["rule"] = "; ".join(RULE[f] for f in families) + "; " + NONTRIVIAL + rule_extra
+    for f in families:
+        {"F1": run_f1, "F2": run_f2, "F3": run_f3}[f](rep, pid, tier)
+    return rep
+
+
+def replay(rec):
+    fam = rec.get("family", "F1")
+    pid = rec["property"]
+    if fam == "F3":
+        sc = f3.scenario([tuple(c) for c in rec["scenario"]["conts"]], rec["scenario"]["overcommit"])
+        tr = []
+        w = f3.run(sc, tr)
+    else:
+        sc = rec["scenario"]
+        tr = []
+        w = (f1 if fam == "F1" else f2).run(sc, Chooser(rec["choices"]), tr)
     for t in tr:
         print(json.dumps(t, default=str))
-    hit = [m for m in w.mm if rec["property"] in m.tags and m.kind == rec.get("kind", m.kind)]
+    hit = [m for m in w.mm if pid in m.tags and m.kind == rec.get("kind", m.kind)]
     for m in w.mm:
         print(("REPRODUCED " if m in hit else "other      ") + repr(m))
     return 1 if hit else 0
-
-RULE_F1 = ("F1: every command sequence with <=k deviations from a default policy (menu: odd sizes, oversubscribing batches, wrong pools, "
-           "dependency/lifecycle violations, suspension of any container ever seen) on the real Executor, lock-step with the reference executor; "
-           "non-trivial = distinct (scenario, outcome-counter vector, exception site) classes")
